@@ -54,17 +54,17 @@ func tagName(t int) string {
 
 // JSONOpts are the bounds and side conditions of one lazy input.
 type JSONOpts struct {
-	Name   string
-	Depth  int // containers allowed down to this depth (0 = scalars only)
-	Width  int // max entries per container
-	Nodes  int // node budget (0 = unlimited)
-	Tags   int // tag universe at container-capable depths
-	Leaf   int // tag universe below Depth
-	NoVar  bool // string values do not start with '?'
+	Name      string
+	Depth     int  // containers allowed down to this depth (0 = scalars only)
+	Width     int  // max entries per container
+	Nodes     int  // node budget (0 = unlimited)
+	Tags      int  // tag universe at container-capable depths
+	Leaf      int  // tag universe below Depth
+	NoVar     bool // string values do not start with '?'
 	NoVarKeys bool // map keys do not start with '?'
-	Finite bool // numbers are finite (JSON cannot carry NaN/Inf)
-	Own    *Owner
-	used   int
+	Finite    bool // numbers are finite (JSON cannot carry NaN/Inf)
+	Own       *Owner
+	used      int
 	// StrPool: when non-empty, every string leaf/key is one of these constants (small vocabulary)
 	StrPool []string
 	// ValPool: when non-empty, every string VALUE is one of these constants
@@ -82,12 +82,12 @@ type lazyMapSpec struct {
 
 // Lazy is an interface{} value whose dynamic type has not been fixed yet.
 type Lazy struct {
-	ID    int
-	Name  string
-	Dom   int
-	Depth int
-	Opts  *JSONOpts
-	Res   *Iface
+	ID         int
+	Name       string
+	Dom        int
+	Depth      int
+	Opts       *JSONOpts
+	Res        *Iface
 	domTouched bool
 	// CopyOf: this value is the JSON round-trip image of another lazy value (resolved on demand)
 	CopyOf *Lazy
